@@ -166,7 +166,7 @@ func cmdCheck(args []string) int {
 			touches = false
 		}
 		if !touches {
-			for _, aa := range c.AssertBefore {
+			for _, aa := range append(append([]*AssertAnchor{}, c.AssertBefore...), c.AssertAfter...) {
 				if aa.Cl != nil && aa.Cl.Props != nil && aa.Cl.inProp(c, prop) {
 					touches = true
 				}
@@ -285,7 +285,7 @@ func cmdCheck(args []string) int {
 		var cls []*Clause
 		cls = append(cls, c.Ensures...)
 		cls = append(cls, c.Requires...)
-		for _, aa := range c.AssertBefore {
+		for _, aa := range append(append([]*AssertAnchor{}, c.AssertBefore...), c.AssertAfter...) {
 			if aa.Cl != nil {
 				cls = append(cls, aa.Cl)
 			}
@@ -444,6 +444,29 @@ func cmdCheck(args []string) int {
 			}
 		}
 		order2 := append([]string{}, order...)
+		// functions all of whose obligations for this property are discharged: any obligation that
+		// appears later in such a function and is refuted (sat) is a violation although it cannot
+		// be in the lock (e.g. a call of a helper whose precondition the new caller does not meet)
+		fnAll := map[string]bool{}
+		fnBad := map[string]bool{}
+		for _, b := range order {
+			g := groups[b]
+			if len(g.insts) == 0 || g.insts[0].Kind == "census" || g.insts[0].Cover {
+				continue
+			}
+			fn := g.insts[0].Func
+			fnAll[fn] = true
+			if len(g.fails) > 0 {
+				fnBad[fn] = true
+			}
+		}
+		for fn := range fnAll {
+			if !fnBad[fn] {
+				m := fn + ".all.complete"
+				groups[m] = &group{}
+				order2 = append(order2, m)
+			}
+		}
 		for fn := range safetyAll {
 			if !safetyBad[fn] {
 				m := fn + ".safety.complete"
@@ -555,7 +578,7 @@ func cmdCheck(args []string) int {
 		if len(bad) > 1 {
 			suffix = fmt.Sprintf(" (+%d more failing cases of this obligation)", len(bad)-1)
 		}
-		if !isLocked && shown.Kind == "safety" && locked[shown.Func+".safety.complete"] {
+		if !isLocked && ((shown.Kind == "safety" && locked[shown.Func+".safety.complete"]) || (shown.Kind != "census" && !shown.Cover && locked[shown.Func+".all.complete"])) {
 			// every safety obligation of this function was discharged on the baseline: a new one
 			// that fails means the changed body can now panic where it could not before
 			sat := false
@@ -581,10 +604,10 @@ func cmdCheck(args []string) int {
 				}
 				violations++
 				if rp != nil && rp.Confirmed {
-					violLines = append(violLines, fmt.Sprintf("VIOLATION property=%s replay=%s obligation=%s (new in a function whose safety obligations were all discharged on the baseline) counterexample confirmed on the real code%s", prop, rp.Path, shown.Name, suffix))
+					violLines = append(violLines, fmt.Sprintf("VIOLATION property=%s replay=%s obligation=%s (new in a function whose obligations of this kind were all discharged on the baseline) counterexample confirmed on the real code%s", prop, rp.Path, shown.Name, suffix))
 				} else {
 					path := writeNoInputReplay(replayDir, prop, shown, rp)
-					violLines = append(violLines, fmt.Sprintf("VIOLATION property=%s replay=%s obligation=%s (new in a function whose safety obligations were all discharged on the baseline) solver=%s%s no-failing-input-found", prop, path, shown.Name, shown.Status, suffix))
+					violLines = append(violLines, fmt.Sprintf("VIOLATION property=%s replay=%s obligation=%s (new in a function whose obligations of this kind were all discharged on the baseline) solver=%s%s no-failing-input-found", prop, path, shown.Name, shown.Status, suffix))
 				}
 				continue
 			}
@@ -624,7 +647,7 @@ func cmdCheck(args []string) int {
 	// locked obligations that were not generated at all
 	var missing []string
 	for b := range locked {
-		if groups[b] == nil && !strings.HasSuffix(b, ".safety.complete") && !(slowBase[b] && *tier != "thorough") {
+		if groups[b] == nil && !strings.HasSuffix(b, ".safety.complete") && !strings.HasSuffix(b, ".all.complete") && !(slowBase[b] && *tier != "thorough") {
 			missing = append(missing, b)
 		}
 	}
